@@ -224,10 +224,11 @@ def rule_sstr_index(c, prog, R="C01.sstr"):
         return ty
 
     def is_field_of_self(n, rx):
+        """the list / the id map: a field of the serializer state, or a `&mut` parameter of a helper it is handed to"""
         n = core.strip(n)
         while n.get("k") in ("AddrOf", "Unary"):
             n = core.strip(n["e"])
-        return n.get("k") == "Field" and rx.match(peel(n.get("ty"))) is not None
+        return n.get("k") in ("Field", "Path") and rx.match(peel(n.get("ty") or n.get("aty"))) is not None and (n.get("k") == "Field" or n.get("res") == "local")
     fns = [f for f in prog.lib_fns() if f.body is not None and f.crate == "rbx_binary" and "::serializer::" in f.path]
     READ_ONLY = {"iter", "len", "is_empty", "clone", "contains", "get", "first", "last", "as_slice", "to_vec", "into_iter", "binary_search", "binary_search_by_key", "starts_with", "ends_with", "deref"}
     assigner = None
@@ -321,7 +322,40 @@ def rule_uid(c, prog, R="C01.uid"):
         c.ok(R, inst)
 
 
+CODE_PAIRS = (("rbx_types::font::FontWeight", "as_u16", "from_u16"), ("rbx_types::font::FontStyle", "as_u8", "from_u8"))
+
+
+def rule_codes(c, prog, R="C01.codes"):
+    """enum <-> number tables used by every codec of Font: from(as(v)) == Some(v) for every variant"""
+    c.rule(R, "the number tables of FontWeight / FontStyle are mutually inverse: for every variant v, from_uN(v.as_uN()) evaluates (symbolically, both functions) to Some(v); the codec analyses of the binary, attribute and XML Font arms rely on this pair")
+    from sa import sym, wire
+    for ty, to, frm in CODE_PAIRS:
+        adt = prog.adts.get(ty)
+        fa, ff = prog.fn(f"{ty}::{to}"), prog.fn(f"{ty}::{frm}")
+        if adt is None or not adt["variants"]:
+            raise core.AnchorMissing(f"{ty} not found")
+        seen = {}
+        for v in adt["variants"]:
+            vp = f"{ty}::{v['name']}"
+            inst = f"{core.short(ty)}::{v['name']}"
+            try:
+                _, code, _ = wire.run_region(prog, fa.body, {fa.params[0]["lid"]: sym.var(vp)}, [], depth=4)
+                _, back, _ = wire.run_region(prog, ff.body, {ff.params[0]["lid"]: code}, [], depth=4)
+            except sym.Unsupported as e:
+                c.violation(R, f"cannot-evaluate|{inst}", f"{ty}::{to} / {frm} are outside the symbolic model: {e}", fa.sp, instance=inst)
+                continue
+            if code[0] == "c" and code[1] in seen:
+                c.violation(R, f"collision|{inst}", f"{inst} and {seen[code[1]]} are both written as {code[1]}", fa.sp, instance=inst)
+            elif back == sym.var(sym.SOME, sym.var(vp)):
+                c.ok(R, inst)
+                if code[0] == "c":
+                    seen[code[1]] = inst
+            else:
+                c.violation(R, f"not-inverse|{inst}", f"{inst} is written as {sym.term_str(code, 3)} and that number reads back as {sym.term_str(back, 4)}", ff.sp, instance=inst)
+
+
 def run(c, prog):
+    rule_codes(c, prog)
     rule_uid(c, prog)
     rule_sstr_index(c, prog)
     rule_tbl(c, prog)
